@@ -79,9 +79,11 @@ for d in sorted(glob.glob(os.path.join(VERIF, "seeded", "C*_*"))):
     m = json.load(open(os.path.join(d, "meta.json")))
     NOTES = {"C08_F": "makes conversion refuse documents it used to convert (nothing wrong is returned): outside what the property states",
              "C10_H": "changes the treatment of NON-conforming strings only, which C10 leaves open",
-             "C04_B": "known miss: strokes thinner than the tolerance under magnification (inside StrokeSem's band)"}
+             "C04_B": "missed until session 3; caught by the hairline family (micro mode of the concretiser)",
+             "C06_J": "known miss: percentage fr of a userSpaceOnUse radial gradient on a non-square viewBox (GradSem gives no colours to focal gradients with fr != 0)",
+             "C20_D": "neutralised: the code it patches (_affine_callback's radii scaling) was rewritten by fix 0d8fcd1"}
     if m.get("still_valid") is False:
-        own, note = "n/a", "neutralised by a later fix: commit (its demonstration no longer fails)"
+        own, note = "n/a", NOTES.get(m["id"], "neutralised by a later fix: commit (its demonstration no longer fails)")
     else:
         own, note = ("yes" if m.get("detected_by_quick_check") else "no"), NOTES.get(m["id"], "")
     rows.append("| %s | %s | %s | %s | %s |" % (m["id"], m["breaks_property"], own,
